@@ -18,7 +18,7 @@ var deniedInit = []string{
 	"runtime", "os", "net", "reflect", "syscall", "crypto", "internal/", "google.golang.org/protobuf",
 	"google.golang.org/genproto", "github.com/", "golang.org/x/sys", "golang.org/x/net/http2", "golang.org/x/net/trace",
 	"golang.org/x/net/internal", "golang.org/x/net/idna", "golang.org/x/text",
-	"encoding/json", "regexp", "log", "testing", "flag", "math/rand", "unique", "hash/maphash", "expvar",
+	"encoding/json", "log", "testing", "flag", "math/rand", "unique", "hash/maphash", "expvar",
 	"net/http", "html", "text/template", "compress", "go/", "embed", "io/fs", "path/filepath", "os/",
 	"golang.org/x/oauth2", "cloud.google.com", "go.opentelemetry.io", "golang.org/x/crypto", "vendor/", "iter", "weak",
 	"encoding/gob", "encoding/xml", "database", "plugin", "mime", "image", "archive", "debug",
@@ -74,6 +74,7 @@ func (in *Interp) runInit(fn *ssa.Function) {
 	savedEpoch, savedNT, savedCur, savedThreads := in.epoch, in.noTrail, in.cur, in.threads
 	savedSteps := in.steps
 	in.epoch, in.noTrail = 0, true
+	savedInit := in.inInit
 	in.inInit = true
 	th := &Thread{id: -1, name: "init"}
 	in.threads = []*Thread{th}
@@ -84,7 +85,7 @@ func (in *Interp) runInit(fn *ssa.Function) {
 	}
 	in.epoch, in.noTrail, in.cur, in.threads = savedEpoch, savedNT, savedCur, savedThreads
 	in.steps = savedSteps
-	in.inInit = len(savedThreads) == 0 && false
+	in.inInit = savedInit
 }
 
 func (in *Interp) initStepLoop(th *Thread) {
@@ -518,7 +519,8 @@ func registerMisc() {
 	for _, n := range []string{"runtime.SetFinalizer", "runtime.KeepAlive", "runtime.GC", "sync.runtime_registerPoolCleanup",
 		"internal/race.Acquire", "internal/race.Release", "internal/race.ReleaseMerge", "internal/race.Disable", "internal/race.Enable",
 		"internal/race.Read", "internal/race.Write", "internal/race.ReadRange", "internal/race.WriteRange", "runtime/pprof.SetGoroutineLabels",
-		"runtime/pprof.Do", "runtime/debug.SetTraceback", "runtime.AddCleanup"} {
+		"runtime/pprof.Do", "runtime/debug.SetTraceback", "runtime.AddCleanup", "internal/godebug.setUpdate",
+		"internal/godebug.registerMetric", "sync.runtime_notifyListCheck", "internal/godebug.setNewIncNonDefault"} {
 		I[n] = noop
 	}
 	I["(*internal/godebug.Setting).Value"] = func(in *Interp, th *Thread, fn *ssa.Function, args []Value, d func(Value)) (Value, bool) {
